@@ -32,6 +32,7 @@ for f in $files; do
     dagrt/utils.py) props="$props C08 C16 C02";;
   esac
 done
+[ "${4:-}" = "target" ] && props="$target"
 props=$(echo $props | tr ' ' '\n' | sort -u | tr '\n' ' ')
 tests=$(PYTHONPATH=$wt /venv/bin/python -m pytest -q -p no:cacheprovider --timeout=900 2>&1 | tail -1)
 PYTHONPATH=$wt /venv/bin/python $sd/demo.py >/dev/null 2>&1; demo_with_rc=$?
